@@ -348,6 +348,94 @@ def _mpint_worker(args):
     return acc.result()
 
 
+# ---- primitives at a non-zero position of the buffer ------------------------------------------------------------
+def sequence_fields():
+    """Small field alphabet for sequences: (kind, parameter, value, reference bytes)."""
+    out = []
+    for width in (1, 2, 3, 4, 8):
+        for v in (0, 1, 0x80 << (8 * (width - 1)), 256 ** width - 1):
+            out.append(('num', width, v, v.to_bytes(width, 'big')))
+    for v in (0, 1, -1, 0x7f, 0x80, -0x80, -0x81, 0x1234567, -0x123456, 1 << 64, -(1 << 64), (1 << 32) - 1,
+              -((1 << 32) - 1)):
+        out.append(('sshmpint', None, v, ref_ssh_mpint(v)))
+    for size, sec in ((4, 0), (4, 1 << 31), (4, (1 << 32) - 2), (8, 0), (8, (1 << 32) - 2)):   # instants in 1970..2106
+        out.append(('ts', size, sec, sec.to_bytes(size, 'big')))
+    for n in (0, 1, 3):
+        out.append(('raw', n, bytes(range(0x80, 0x80 + n)), bytes(range(0x80, 0x80 + n))))
+    return out
+
+
+def _sequence_worker(args):
+    """Every ordered pair of fields (and every triple whose middle field is an SSH mpint) written by one composer and
+    read back by one parser: a primitive must work at any position of the buffer, not only at offset 0."""
+    part, parts = args
+    acc = core.Acc()
+    ByteOrder, ComposerBinary, ParserBinary, InvalidValue = _lib()
+    utc = datetime.timezone.utc
+    fields = sequence_fields()
+    seqs = [(a, b) for a in fields for b in fields]
+    mp = [f for f in fields if f[0] == 'sshmpint']
+    seqs += [(a, m, b) for a in fields[::3] for m in mp for b in mp]
+    for si, seq in enumerate(seqs):
+        if si % parts != part:
+            continue
+        acc.counters['transitions'] = acc.counters.get('transitions', 0) + 2 * len(seq)
+        ref = b''.join(f[3] for f in seq)
+        w = {'kind': 'sequence', 'fields': [[f[0], f[1], f[2] if not isinstance(f[2], bytes) else f[2].hex()] for f in seq]}
+        label = '+'.join(f[0] for f in seq)
+        c = ComposerBinary()
+        try:
+            for kind, par, v, _ in seq:
+                if kind == 'num':
+                    c.compose_numeric(v, par)
+                elif kind == 'sshmpint':
+                    c.compose_ssh_mpint(v)
+                elif kind == 'ts':
+                    c.compose_timestamp(datetime.datetime(1970, 1, 1, tzinfo=utc) + datetime.timedelta(seconds=v),
+                                        item_size=par)
+                else:
+                    c.compose_raw(v)
+            got = bytes(c.composed_bytes)
+        except Exception as ex:  # noqa
+            acc.violation('sequence:compose_raises:%s:%s' % (label, core.ename(ex)), 'composing %s raises' % label, w)
+            got = None
+        if got is not None and got != ref:
+            # negative SSH mpints need not be minimal (see above): judged by the read-back below
+            if not any(f[0] == 'sshmpint' and f[2] < 0 for f in seq):
+                acc.violation('sequence:compose_wrong:%s' % label, 'fields %s compose to %s, expected %s'
+                              % (label, got.hex()[:60], ref.hex()[:60]), w)
+        p = ParserBinary(ref + b'\xaa')
+        try:
+            back = []
+            for k, (kind, par, v, _) in enumerate(seq):
+                name = 'f%d' % k
+                if kind == 'num':
+                    p.parse_numeric(name, par)
+                    back.append(p[name])
+                elif kind == 'sshmpint':
+                    p.parse_ssh_mpint(name)
+                    back.append(p[name])
+                elif kind == 'ts':
+                    p.parse_timestamp(name, item_size=par)
+                    back.append(int((p[name] - datetime.datetime(1970, 1, 1, tzinfo=utc)).total_seconds()))
+                else:
+                    p.parse_raw(name, par)
+                    back.append(bytes(p[name]))
+        except Exception as ex:  # noqa
+            acc.violation('sequence:parse_raises:%s:%s' % (label, core.ename(ex)), 'reading %s back raises' % label, w)
+            continue
+        exp = [f[2] for f in seq]
+        if back != exp or p.parsed_length != len(ref):
+            k = next((i for i in range(len(seq)) if back[i] != exp[i]), len(seq) - 1)
+            acc.violation('sequence:parse_wrong:%s@%d' % (seq[k][0], min(k, 1)),
+                          'field %d (%s) of the sequence %s reads back as %r, expected %r'
+                          % (k, seq[k][0], label, back[k], exp[k]), w)
+        acc.state(core.h64('sequence', ref))
+    if part == 0:
+        acc.sample({'kind': 'sequence', 'fields': len(fields), 'sequences': len(seqs)}, 1)
+    return acc.result()
+
+
 # ---- timestamps x process configurations -------------------------------------------------------------------
 ZONES = ['UTC', 'Etc/GMT+12', 'Etc/GMT-14', 'Asia/Kathmandu', 'Europe/Moscow', 'America/Caracas',
          'Australia/Lord_Howe', 'America/New_York', 'Europe/London', 'America/Sao_Paulo', 'Pacific/Apia',
@@ -641,6 +729,7 @@ def run(ctx):
     ctx.pmap(_flag_worker, list(range(len(flag_enums()))))
     parts = 16
     ctx.pmap(_mpint_worker, [(p, parts, thorough) for p in range(parts)])
+    ctx.pmap(_sequence_worker, [(p, 16) for p in range(16)])
     ctx.pmap(_ts_worker, [(z, thorough) for z in ZONES])
     sites = timestamp_sites()
     heavy = [si for si, (qn, f) in enumerate(sites) if 'Certificate' in qn]
@@ -663,7 +752,8 @@ def run(ctx):
     return ctx.finish(rule='widths 1-2 all values, width 3 %s, widths 4/8 boundary patterns, x4 byte orders, both '
                            'directions; out-of-range set per width; flag subsets (all 2^n for <=15 members) and all '
                            'words of 1-2 byte flag fields; fixed mpint [0,2^16] x 7 lengths x 4 orders; SSH mpint '
-                           '[-2^17,2^17] and +-(2^n+-1), n<=%d; timestamps under %d TZ settings, through the primitive and '
+                           '[-2^17,2^17] and +-(2^n+-1), n<=%d; every ordered pair of fields (numeric, SSH mpint, timestamp, raw) '
+                           'in one buffer; timestamps under %d TZ settings, through the primitive and '
                            'through every message class with a timestamp field'
                            % ('all 2^24' if thorough else 'all values with <=2 non-zero bytes',
                               4097 if thorough else 1100, len(ZONES)))
@@ -710,6 +800,9 @@ def replay(ctx, w):
             except Exception as ex:  # noqa
                 acc.violation('sshmpint:parse_raises:%s:%s' % ('neg' if v < 0 else 'nonneg', core.ename(ex)), 'raises', w)
             res = acc.result()
+    elif k == 'sequence':
+        res = _sequence_worker((0, 1))
+        res = (res[0], [v for v in res[1] if v['witness']['fields'] == w['fields']] or res[1], res[2], res[3])
     elif k == 'site':
         sites = timestamp_sites()
         res = _site_worker((w['zone'], sites.index((w['cls'], w['field'])), True))
